@@ -14,6 +14,7 @@ import (
 	"time"
 
 	"verif/harness/internal/core"
+	"verif/harness/internal/corpus"
 	"verif/harness/internal/sim"
 )
 
@@ -182,6 +183,7 @@ func c12Process(ctx *core.Ctx, res *core.Result) {
 		phase int
 		kill  bool
 		gc    bool // holder runs with GOGC=1: collections (and finalizers) as early as possible
+		house bool // the daily housekeeping job (bin/delete-old-policies) runs while the holder is active; the lock file is as old as the installation
 	}
 	var jobs []job
 	for _, h := range holders {
@@ -204,7 +206,7 @@ func c12Process(ctx *core.Ctx, res *core.Result) {
 			}
 		}
 		for _, k := range phases {
-			jobs = append(jobs, job{h, k, false, false}, job{h, k, true, false}, job{h, k, false, true})
+			jobs = append(jobs, job{h, k, false, false, false}, job{h, k, true, false, false}, job{h, k, false, true, false}, job{h, k, false, false, true})
 		}
 	}
 	sem := make(chan struct{}, 12)
@@ -230,12 +232,22 @@ func c12Process(ctx *core.Ctx, res *core.Result) {
 				hsc.procEnv = []string{"GOGC=1"}
 			}
 			holder := startProd(work, &hsc, j.h.front, nil, j.phase, "ctrl-holder", "")
-			ev := []string{fmt.Sprintf("holder=%s/%s paused at phase %d kill=%v GOGC=1:%v", j.h.devType, j.h.front, j.phase, j.kill, j.gc)}
+			ev := []string{fmt.Sprintf("holder=%s/%s paused at phase %d kill=%v GOGC=1:%v housekeeping:%v", j.h.devType, j.h.front, j.phase, j.kill, j.gc, j.house)}
 			if !waitFile(filepath.Join(holder.ctrl, "paused"), 90*time.Second) {
 				holder.kill9()
 				add("holder-did-not-reach-phase", fmt.Sprintf("holder %v never reached phase %d", j.h, j.phase), ev)
 				results <- out
 				return
+			}
+			if j.house {
+				old := time.Now().Add(-400 * 24 * time.Hour)
+				os.Chtimes(filepath.Join(work, "lock", "router"), old, old)
+				hk := exec.Command(filepath.Join(corpus.RepoDir, "bin", "delete-old-policies"))
+				hk.Env = []string{"HOME=" + work, "PATH=" + filepath.Join(core.VerifDir, ".build", "bin") + ":" + os.Getenv("PATH")}
+				if out, err := hk.CombinedOutput(); err != nil {
+					add("housekeeping-failed", fmt.Sprintf("delete-old-policies: %v %s", err, out), ev)
+				}
+				ev = append(ev, "delete-old-policies ran (lock file 400 days old, keep_history default 365)")
 			}
 			snap := treeSnapshot(work)
 			for ci, c := range conts {
